@@ -66,3 +66,10 @@ Definition coherent_b (s : tcp_sig) (b : base) : bool :=
 
 (* a tape whose entries are in the ranges the code asks for never makes the model run dry *)
 Definition tape_ok {A} (r : res A) : Prop := r <> Err OutOfFuel.
+
+(* ---- satisfiability, relative to the base packet's IP version and SYN / SYN+ACK type ---- *)
+Definition Satisfiable (md : Z) (s : tcp_sig) (b : base) : Prop :=
+  exists pk k, Forall (fun c => 0 <= c < 256) pk /\
+    parse_packet (b_ver b) pk = Framed (Ok k) /\
+    t_type (k_tcp k) = Z.land (b_flags b) 18 /\
+    tcp_match md s (sig_of k 0) = Some Exact.
